@@ -29,7 +29,7 @@ RULE = ('histories on the real Bus with raw scripted clients (real handshake and
         'hand the bus answer (reply code, owner, queue) to the caller unchanged. Non-trivial = contention (a second '
         'requester on an owned name) or a release/disconnect with a non-empty queue; distinct = distinct history JSON. Every second '
         'raw peer is big-endian; bus calls carry no SENDER, the true one or another client\'s by turns, and come in the four '
-        'header spellings of refcodec.encode_variant.')
+        'header spellings of refcodec.encode_variant; every third peer never says Hello (the bus serves it all the same).')
 ASSUMPTIONS = ['whether a replaced owner is dropped or re-queued is not stated: the model adopts what the next '
                'ListQueuedOwners shows',
                'a queued (non-owner) client releasing the name is answered RELEASED, as the specification defines '
@@ -57,7 +57,7 @@ def run_history(case):
         obs = rig.attach()
         clients = {}
         for i in range(case['nclients']):
-            clients[i] = rig.attach()
+            clients[i] = rig.attach(hello=(i % 3 != 1))     # every third peer skips Hello (the bus serves it regardless)
     except N.RigFailure as e:
         return [Disc('rig.attach-failed', str(e))]
     except Exception as e:
@@ -81,7 +81,7 @@ def run_history(case):
             if kind == 'connect':
                 if len(live) >= 4:
                     continue
-                clients[next_id] = rig.attach()
+                clients[next_id] = rig.attach(hello=(next_id % 3 != 1))
                 uname[next_id] = clients[next_id].name
                 if list(uname.values()).count(uname[next_id]) > 1 or uname[next_id] == obs.name:
                     out.append(Disc('unique-name-reused', '%s: %r' % (where, uname)))
